@@ -72,11 +72,14 @@ void *janet_gcalloc(enum JanetMemoryType type, size_t size) {
   return p;
 }
 void *lib_memcpy(void *d, const void *s, size_t n) {
-  if (n > 8) return memcpy(d, s, n);
+  /* (no call of memcpy in here: --replace-calls would redirect it to this function) */
   __CPROVER_assert(n == 0 || __CPROVER_r_ok(s, n), "memcpy model: source range readable");
   __CPROVER_assert(n == 0 || __CPROVER_w_ok(d, n), "memcpy model: destination range writable");
-  __CPROVER_assert(n == 0 || !__CPROVER_same_object(d, s), "memcpy model: ranges do not overlap");
-  for (size_t k = 0; k < 8; k++) if (k < n) ((uint8_t *)d)[k] = ((const uint8_t *)s)[k];
+  __CPROVER_assert(n == 0 || !__CPROVER_same_object(d, s) ||
+                   __CPROVER_POINTER_OFFSET(d) + n <= __CPROVER_POINTER_OFFSET(s) ||
+                   __CPROVER_POINTER_OFFSET(s) + n <= __CPROVER_POINTER_OFFSET(d), "memcpy model: ranges do not overlap");
+  if (n > 8) seq_copy_model(d, s, n);
+  else for (size_t k = 0; k < 8; k++) if (k < n) ((uint8_t *)d)[k] = ((const uint8_t *)s)[k];
   return d;
 }
 
